@@ -257,6 +257,70 @@ def _nonuniform_case(c):
     return fails, nevals
 
 
+def gram1d_boundary(pts):
+    """Gram matrix of ALL nodal hats of a 1D point set, the two boundary half-hats included"""
+    n = len(pts)
+    G = np.zeros((n, n))
+    for i in range(n):
+        hl = pts[i] - pts[i - 1] if i > 0 else 0.0
+        hr = pts[i + 1] - pts[i] if i < n - 1 else 0.0
+        G[i, i] = (hl + hr) / 3
+        if i < n - 1:
+            G[i, i + 1] = G[i + 1, i] = hr / 6
+    return G
+
+
+def _hats_at_boundary(coords, x):
+    per = []
+    for k, c in enumerate(coords):
+        ext = [c[0] - 1.0] + list(c) + [c[-1] + 1.0]          # virtual neighbours: the boundary hats are the restrictions of full hats
+        per.append([hat1d(ext, i, x[k]) for i in range(1, len(ext) - 1)])
+    return np.array([float(np.prod(v)) for v in itertools.product(*per)])
+
+
+def _nonuniform_boundary_case(c):
+    """component grids WITH boundary points (dimension-wise refinement with boundary=True): system matrix and right-hand side"""
+    from sparseSpACE.GridOperation import DensityEstimation
+    from sparseSpACE.Grid import GlobalTrapezoidalGrid
+    ts, lam = c["trees"], c["lambda"]
+    d = len(ts)
+    fails = []
+    coords = [list(t[0]) for t in ts]
+    lvs = [list(t[1]) for t in ts]
+    G = _kron([gram1d_boundary(p) for p in coords])
+    n = G.shape[0]
+    nevals = 0
+    for lab in c["labels"]:
+        for data in _datasets(d, False):
+            X = np.array(data, dtype=float)
+            cls = None if LABELS[lab] is None else LABELS[lab](len(data))
+            # a sample with a coordinate on the upper domain boundary belongs to the boundary hat there
+            key = {"grid": "nonuniform", "boundary": True, "sample_on_upper_boundary": bool(np.any(X == 1.0))}
+            grid = GlobalTrapezoidalGrid(a=np.zeros(d), b=np.ones(d), modified_basis=False, boundary=True)
+            op = DensityEstimation(X.copy(), d, grid=grid, masslumping=False, lambd=lam, classes=None if cls is None else cls.copy(),
+                                   reuse_old_values=False, numeric_calculation=False, print_output=False, pre_scaled_data=True,
+                                   print_level=1000, log_level=1000)
+            op.dimension_wise = True
+            op.max_levels = [max(l) + 1 for l in lvs]
+            grid.set_grid(coords, lvs)
+            nevals += 1
+            if nevals == 1:
+                R = np.asarray(op.build_R_matrix_dimension_wise(coords, lvs), dtype=float)
+                if R.shape != G.shape or not np.allclose(R, G + lam * np.eye(n), rtol=1e-13, atol=1e-15):
+                    fails.append(fail("R_equals_gram_plus_lambda", "points %r (with boundary points) lambda %r" % (coords, lam), key))
+                    return fails, nevals
+            sgn = np.ones(len(data)) if cls is None else cls
+            bref = sum(s_ * _hats_at_boundary(coords, x) for s_, x in zip(sgn, data)) / len(data)
+            for path, thr in (("small", None), ("large", 0)):
+                b = _with_threshold(thr, lambda: np.asarray(op.calculate_B_dimension_wise(X, coords, lvs), dtype=float)) if thr is not None else \
+                    np.asarray(op.calculate_B_dimension_wise(X, coords, lvs), dtype=float)
+                if b.shape != bref.shape or not np.allclose(b, bref, rtol=1e-13, atol=1e-15):
+                    fails.append(fail("rhs_equals_sample_mean", "points %r (with boundary points) data %r labels %r, %s-grid path: b sums to %r, reference to %r"
+                                      % (coords, data, None if cls is None else cls.tolist(), path, float(np.sum(b)), float(np.sum(bref))), key))
+                    break
+    return fails, nevals
+
+
 def _combi_case(c):
     """StandardCombi + DensityEstimation: combi(points) == sum_l coefficient_l * sum_j alpha_j phi_j(points)"""
     from sparseSpACE.GridOperation import DensityEstimation
@@ -294,7 +358,7 @@ def _combi_case(c):
 
 def run_case(case):
     c = case["config"]
-    fails, n = {"uniform": _uniform_case, "nonuniform": _nonuniform_case, "combi": _combi_case}[c["kind"]](c)
+    fails, n = {"uniform": _uniform_case, "nonuniform": _nonuniform_case, "nonuniform_boundary": _nonuniform_boundary_case, "combi": _combi_case}[c["kind"]](c)
     return {"failures": fails, "canon": core.config_key(c), "outcome": (n, len(fails)), "nontrivial": True, "evals": n}
 
 
@@ -327,6 +391,12 @@ def cases(tier):
             for lam, lump in ((0.0, False), (0.1, False), (0.1, True)):
                 out.append({"config": {"kind": "nonuniform", "trees": [list(t0), list(t1)], "lambda": lam, "masslumping": lump, "numeric": False,
                                        "labels": ["none", "frac"] if lam == 0.0 else ["pm1"], "full": False}})
+    # component grids with boundary points
+    for t in T1:
+        out.append({"config": {"kind": "nonuniform_boundary", "trees": [list(t)], "lambda": 0.1, "labels": ["none", "pm1"]}})
+    for t0 in trees.all_trees_depth(2, 0.0, 1.0):
+        for t1 in trees.all_trees_depth(2, 0.0, 1.0):
+            out.append({"config": {"kind": "nonuniform_boundary", "trees": [list(t0), list(t1)], "lambda": 0.0, "labels": ["none", "frac"]}})
     for t0 in trees.all_trees_depth(2, 0.0, 1.0)[:3]:
         out.append({"config": {"kind": "nonuniform", "trees": [list(t0), list(trees.all_trees_depth(2, 0.0, 1.0)[1])], "lambda": 0.0,
                                "masslumping": False, "numeric": True, "labels": ["none"], "full": False}})
@@ -349,7 +419,7 @@ def main(ctx):
         ctx.absorb(case, res, group=case["config"]["kind"])
     for i in (2, len(cs) // 2, len(cs) - 1):
         ctx.add_sample(cs[i])
-    ctx.bounds = {k: sum(1 for c in cs if c["config"]["kind"] == k) for k in ("uniform", "nonuniform", "combi")}
+    ctx.bounds = {k: sum(1 for c in cs if c["config"]["kind"] == k) for k in ("uniform", "nonuniform", "nonuniform_boundary", "combi")}
     return ctx.finish(
         rule="one case = one component grid (uniform level vector, or refinement tree(s)) x lambda x mass lumping x analytic/numeric; "
              "inside a case every labelling of the menu and EVERY single-sample data set of the lattice {0,1/8,1/4,0.3,1/2,0.77,1}^d "
